@@ -372,6 +372,11 @@ def prepare(ob):
         ng = norm(z3.Not(g))
         ground = [h for h in hyps if not _has_quant(h)] + [ng]
         quant = [h for h in hyps if _has_quant(h)]
+        if _has_quant(ng):
+            # an existential goal: its negation is a universal fact, instantiated like the other quantified hypotheses
+            u = _neg_exists_as_forall(ng)
+            if u is not None:
+                quant = quant + [u]
         insts = instantiate(quant, ground)
         em = ematch(quant, ground + insts)
         em += ematch(quant, ground + insts + em)      # second round: instances expose new terms
@@ -379,6 +384,16 @@ def prepare(ob):
         insts += [e_ for e_ in em if e_.get_id() not in ids]
         subs.append({"full": to_smt2(hyps + insts, ng), "ground": to_smt2([h for h in hyps if not _has_quant(h)] + insts, ng)})
     return subs
+
+
+def _neg_exists_as_forall(ng):
+    """Not(Exists x. P)  ->  ForAll x. Not P   (the shape a negated existential goal has)"""
+    if z3.is_not(ng) and z3.is_quantifier(ng.arg(0)) and not ng.arg(0).is_forall():
+        q = ng.arg(0)
+        consts = [z3.Const("%s!ne%d" % (q.var_name(i), q.get_id()), q.var_sort(i)) for i in range(q.num_vars())]
+        body = z3.substitute_vars(q.body(), *reversed(consts))
+        return z3.ForAll(consts, z3.Not(body))
+    return None
 
 
 def _has_quant(e, _c={}):
